@@ -63,6 +63,11 @@ type referenceTracker struct {
 	tracked map[string]string
 	added   map[string]string
 	deleted map[string]string
+
+	// initialized holds the table/uuid pairs whose references have been
+	// loaded from the database: a uuid may be referred to through columns
+	// that refer to different tables
+	initialized map[string]bool
 }
 
 func newReferenceTracker(dbModel model.DatabaseModel, provider ReferenceProvider) *referenceTracker {
@@ -75,6 +80,7 @@ func newReferenceTracker(dbModel model.DatabaseModel, provider ReferenceProvider
 func (rt *referenceTracker) processReferences(updates ModelUpdates) (ModelUpdates, ModelUpdates, database.References, error) {
 	rt.updates = updates
 	rt.tracked = make(map[string]string)
+	rt.initialized = make(map[string]bool)
 	rt.added = make(map[string]string)
 	rt.deleted = make(map[string]string)
 	rt.references = make(database.References)
@@ -440,15 +446,25 @@ func copyMapKeyValues(from, to map[interface{}]interface{}, isKey bool, keyValue
 // initReferences initializes the references to the provided row from the
 // database
 func (rt *referenceTracker) initReferences(table, uuid string) error {
-	if _, ok := rt.tracked[uuid]; ok {
+	key := table + "/" + uuid
+	if rt.initialized[key] {
 		// already initialized
 		return nil
 	}
+	rt.initialized[key] = true
 	existingRefs, err := rt.provider.GetReferences(rt.dbModel.Client().Name(), table, uuid)
 	if err != nil {
 		return err
 	}
 	rt.references.UpdateReferences(existingRefs)
+	if _, ok := rt.tracked[uuid]; ok {
+		// the uuid is known as a row of another table: a value in a column
+		// that refers to this table names a row of that one (it refers to
+		// nothing here). Keep the table of the row that exists.
+		if exists, err := rt.rowExists(table, uuid); err != nil || !exists {
+			return err
+		}
+	}
 	rt.tracked[uuid] = table
 	return nil
 }
